@@ -1,5 +1,6 @@
 #!/bin/bash
-# usage: seed_eval.sh <property> <k> [full] [srcdir]
+# usage: seed_eval.sh <property> <k> [full|corr] [srcdir] [srcindex]
+#   srcdir/srcindex: where the worker delivered it (mutant<srcindex>.diff ...); default /tmp/mut/<property>-out, index k
 # Validates mutant k for <property> (delivered in /tmp/mut/<property>-out/ or, when the
 # seed is already stored, in /verif/seeded/<property>-<k>/) and runs ./check on it.
 #   1. scratch git worktree of /repo HEAD; demo must PASS on the clean tree
@@ -12,13 +13,15 @@ P=$1; K=$2; MODE=${3:-corr}
 export GOFLAGS=-mod=mod GOPROXY=off GOSUMDB=off GOTOOLCHAIN=local
 OUT=/verif/seeded/$P-$K
 SRC=${4:-/tmp/mut/$P-out}
+SK=${5:-$K}
 W=/tmp/seedeval/$P-$K
 mkdir -p /tmp/seedeval $OUT
-if [ -f $SRC/mutant$K.diff ]; then
-  cp $SRC/mutant$K.diff $OUT/patch.diff
-  cp $SRC/demo${K}_test.go $OUT/demo_test.go
-  [ -f $SRC/notes$K.md ] && cp $SRC/notes$K.md $OUT/notes.md
+if [ -f $SRC/mutant$SK.diff ]; then
+  cp $SRC/mutant$SK.diff $OUT/patch.diff
+  cp $SRC/demo${SK}_test.go $OUT/demo_test.go
+  [ -f $SRC/notes$SK.md ] && cp $SRC/notes$SK.md $OUT/notes.md
 fi
+DK=$(grep -o 'func TestMutantDemo[0-9]*' $OUT/demo_test.go | head -1 | grep -o '[0-9]*$')
 [ -f $OUT/patch.diff ] || { echo "no patch for $P-$K"; exit 2; }
 rm -rf $W
 git -C /repo worktree prune
@@ -27,7 +30,7 @@ DEMO=$OUT/demo_test.go
 PKG=$(grep -m1 '^package ' $DEMO | awk '{print $2}')
 DIR=client; [ "$PKG" = "state" ] && DIR=state
 cp $DEMO $W/$DIR/zz_demo_test.go
-CLEAN=$(cd $W && timeout 300 go test -vet=off -count=1 -run "TestMutantDemo$K\$" ./$DIR 2>&1 | tail -1)
+CLEAN=$(cd $W && timeout 300 go test -vet=off -count=1 -run "TestMutantDemo$DK\$" ./$DIR 2>&1 | tail -1)
 rm -f $W/$DIR/zz_demo_test.go
 git -C $W apply $OUT/patch.diff || { echo "patch does not apply"; git -C /repo worktree remove --force $W; exit 2; }
 BUILD=$(cd $W && go build ./... 2>&1 | tail -2)
@@ -37,7 +40,7 @@ if echo "$SUITE" | grep -q FAIL; then
   SUITE="$SUITE | non-TestPing failures on rerun: [$SUITE2]"
 fi
 cp $DEMO $W/$DIR/zz_demo_test.go
-MUT=$(cd $W && timeout 300 go test -vet=off -count=1 -run "TestMutantDemo$K\$" ./$DIR 2>&1 | tail -1)
+MUT=$(cd $W && timeout 300 go test -vet=off -count=1 -run "TestMutantDemo$DK\$" ./$DIR 2>&1 | tail -1)
 rm -f $W/$DIR/zz_demo_test.go
 cd /verif
 if [ "$MODE" = full ]; then
@@ -62,7 +65,7 @@ meta={'property':P,'mutant':int(K),
  'needs_to_manifest': old.get('needs_to_manifest',''),
  'confirmed':{'demo_on_clean_tree':CLEAN,'go_build_with_mutant':BUILD or 'ok','existing_suite_with_mutant':SUITE,'demo_with_mutant':MUT},
  'check_runs':runs,
- 'ran':['git worktree add /tmp/seedeval/%s-%s HEAD; demo on clean tree; git apply patch.diff'%(P,K),'go build ./... ; go test -vet=off -count=1 ./...','go test -run TestMutantDemo%s (demo copied next to the code)'%K,'VERIF_REPO=<worktree> [VERIF_FULL=1] ./check '+P,'git worktree remove --force']}
+ 'ran':['git worktree add /tmp/seedeval/%s-%s HEAD; demo on clean tree; git apply patch.diff'%(P,K),'go build ./... ; go test -vet=off -count=1 ./...','go test -run TestMutantDemoN (demo copied next to the code)','VERIF_REPO=<worktree> [VERIF_FULL=1] ./check '+P,'git worktree remove --force']}
 json.dump(meta,open(out,'w'),indent=1)
 print('%s-%s [%s]: clean[%s] suite[%s] mutant-demo[%s] => %s'%(P,K,MODE,CLEAN[:40],SUITE[:70],MUT[:40],runs[MODE]['detected_by']))
 PY
